@@ -14,5 +14,6 @@ CONSTANTS
   RandMaxK = 7
   RandAllK = 3
   RawCount = 150
+  OptCount = 60
 INIT GenInit
 NEXT GenNext
